@@ -128,6 +128,8 @@ def _cv(v, tags, depth):
                 digest(code.co_code), cells, v.__doc__ if isinstance(v.__doc__, str) and len(v.__doc__) < 200 else None)
     if isinstance(v, type) or type(v).__name__ in ('builtin_function_or_method', 'method', 'module'):
         return ('obj', repr(v))
+    if callable(v) and getattr(v, '__name__', None) and type(v).__name__ in ('_ArrayFunctionDispatcher', 'ufunc', 'method-wrapper', 'wrapper_descriptor'):
+        return ('callable', getattr(v, '__module__', None), v.__name__)       # numpy dispatchers / ufuncs held in closures: named, stateless
     raise HarnessFault('canon: object %r of type %s is neither data nor registered' % (v, type(v)))
 
 
@@ -486,7 +488,8 @@ def variants(ctx):
         'A3': {'name': 'A3', 'cost': 'vec', 'reducer': 'sum', 'init': 'point', 'x0': [0.8, -0.4], 'box': 'unit', 'clip': True,
                'con': 'round/pure', 'pen': 'quad', 'term': 'crt', 'limits': [5, 40], 'seed': 37 + sd},
         # thorough, small call sets only (slow settings): symbolic tight bounds / random re-entry bounds
-        'A4': {'name': 'A4', 'cost': 'absum', 'init': 'random', 'initbox': 'shift', 'box': 'unit', 'tight': True,
+        # (initial points are requested INSIDE the strict ranges: nothing is clipped, only the random stream matters)
+        'A4': {'name': 'A4', 'cost': 'absum', 'init': 'random', 'initbox': 'unit', 'box': 'unit', 'tight': True,
                'con': 'pin1/inplace', 'pen': 'ramp', 'term': 'never', 'limits': [3, None], 'seed': 41 + sd, 'nsteps': 4},
         'A5': {'name': 'A5', 'cost': 'sphere', 'init': 'point', 'x0': [3.0, -2.0], 'box': 'unit', 'clip': False,
                'con': 'clamp/inplace', 'pen': 'quad', 'term': 'cog1', 'limits': [None, 12], 'seed': 43 + sd, 'nsteps': 4},
@@ -864,7 +867,13 @@ def _stop_kinds(ref):
 # ====================================================================== dispatch / run / replay
 def _dispatch(item):
     kind, payload = item
-    return {'Ad': shard_diamond, 'Ap': shard_perms, 'B': shard_de2, 'C': shard_ens}[kind](payload)
+    try:
+        return {'Ad': shard_diamond, 'Ap': shard_perms, 'B': shard_de2, 'C': shard_ens}[kind](payload)
+    finally:
+        d = os.path.join(tempfile.gettempdir(), 'verif-c07-%d' % os.getpid())
+        if os.path.isdir(d):
+            import shutil
+            shutil.rmtree(d, ignore_errors=True)
 
 
 def _fixes(nopt, bound, two_level=True):
